@@ -24,12 +24,15 @@ def expected_nodes(spec, inst):
             if s['type'] == 'defense':
                 ttc = s.get('ttc')
                 d = float(a.get('defenses', {}).get(sn, 1.0 if (ttc and ttc.get('name') == 'Enabled') else 0.0))
-            e = None
+            e = e_hi = None
             if s['type'] in ('exist', 'notExist'):
+                # `x*`: the toolbox computes closure+, MAL says closure*; the reference gives the two bounds (flipped under
+                # the right operand of a difference) and any answer between them is accepted - as for the edges in C01
                 e = bool(ref.den(s['requires']['stepExpressions'][0], frozenset([a['id']]), False))
+                e_hi = bool(ref.den(s['requires']['stepExpressions'][0], frozenset([a['id']]), True))
             out.append({'id': len(out), 'full_name': f"{a['name']}:{sn}", 'asset': a['name'], 'name': sn, 'type': s['type'],
                         'ttc': jtxt(s.get('ttc')), 'tags': list(s.get('tags') or []), 'mitre': (s.get('meta') or {}).get('mitre'),
-                        'defense': d, 'exist': e})
+                        'defense': d, 'exist': e, 'exist_hi': e_hi})
     return out
 
 def check_case(spec, inst, mo, churn_seed=None, keep=None):
@@ -45,6 +48,10 @@ def check_case(spec, inst, mo, churn_seed=None, keep=None):
         keep['_lookups'] = {'ids': [nid(g.get_node_by_id(k)) for k in keep['ids']], 'names': [nid(g.get_node_by_full_name(k)) for k in keep['names']]}
     want = expected_nodes(spec, inst)
     probs = []
+    for n, w in zip(im['nodes'], want):
+        # between the bounds: take the implementation's answer as the expected one
+        if (n['asset'], n['name']) == (w['asset'], w['name']) and w['exist'] != w['exist_hi'] and n['exist'] in (w['exist'], w['exist_hi']): w['exist'] = n['exist']
+    for w in want: w.pop('exist_hi', None)
     if im['nodes'] != want:
         gi = [(n['asset'], n['name']) for n in im['nodes']]; wi = [(n['asset'], n['name']) for n in want]
         if sorted(gi) != sorted(wi): probs.append(f'node set differs: missing {sorted(set(wi) - set(gi))[:3]} extra {sorted(set(gi) - set(wi))[:3]} (or duplicated)')
@@ -120,6 +127,7 @@ def run(seed, tier, lean) -> Result:
                       'non-trivial = >= 2 assets of different types one of which inherits a step')
     n = 300 if tier == 'quick' else 1800
     cases = []
+    renamed = set()      # cases whose asset names were replaced by colliding / missing / generated-looking ones
     for i in range(n):
         r = random.Random(rnd.getrandbits(48))
         spec = LangGen(r, knobs={'exist_w': 3}).gen()
@@ -130,12 +138,13 @@ def run(seed, tier, lean) -> Result:
             for a in inst['assets']:
                 other = r.choice(inst['assets'])
                 a['name'] = r.choice(pool + [f"{other['type']}:{other['id']}", f"A:{other['id']}"])
+            renamed.add(id(inst))
         cases.append((spec, inst))
     # the real model decides the final names (renaming); read them back before asking the Lean model
     from ..langgen import build_lang, build_model
     names0 = {}          # third column: the names the asset objects were constructed with (the generated `add_asset` renames itself)
     for spec, inst in cases:
-        if any(a['name'] is None or a['name'].startswith(('A', 'T')) for a in inst['assets']):
+        if id(inst) in renamed or any(a['name'] is None or a['name'].startswith(('A', 'T')) for a in inst['assets']):
             try:
                 orig = [a['name'] for a in inst['assets']]
                 _, fac = build_lang(spec); _, byid = build_model(fac, inst)
